@@ -178,6 +178,6 @@ def run(tier, only=None):
 
 
 def replay(path):
-    import json
-    print(json.dumps(json.load(open(path)).get("replay"), indent=1, default=str)[:3000])
-    return 1
+    import sys
+    from ..common import generic_replay
+    return generic_replay(sys.modules[__name__], path)
